@@ -50,7 +50,7 @@ CHECKS = {
             "3 C05"),
     "C12": ("exploration", "fmt", "exhaustive enumeration of native-convention datasets built by independent encoders, bin-by-bin against the physical truth",
             "A physical truth E(f,theta_from) on enumerated small grids is encoded by independent encoders into the WW3, SWAN-netCDF, WWM, "
-            "ERA5 and NDBC conventions (all direction orders, every subset of optional variables, lon/lat layouts, backings, dtypes); "
+            "ERA5 and NDBC conventions (all direction orders, every subset of optional variables, lon/lat layouts, backings, dtypes, native dimensions with and without index coordinate variables); "
             "read_dataset and from_<model> must return the wavespectra convention with every bin density/direction, the variance, winds "
             "and labels equal to the truth, and must not modify the caller's dataset.",
             "In-memory datasets only (netCDF4/zarr are not installed, so the file-opening halves cannot run).",
@@ -74,7 +74,7 @@ CHECKS = {
             "Native: a driver linked with the repo's specpart.c and built with clang ASan+UBSan runs every grid shape 1x1..8x8 (complete "
             "structured families, full products on small shapes, tiny/huge value ranges) x ihmax {1..1000} round-robin over shapes so "
             "the static buffers are reallocated at every call, with a per-call watchdog; any sanitizer report, timeout, crash or input "
-            "modification is a violation. Python: ~70 public operations x degenerate spectra x grids nf{1..9} x nd{1..4} x layouts must "
+            "modification is a violation. Python: ~75 public operations (incl. transform-then-statistic chains on spectra without a direction dimension) x degenerate spectra x grids nf{1..9} x nd{1..4} x layouts must "
             "not raise; 24 invalid-argument classes must raise ValueError.",
             "The python wrapper runs without sanitizers (crashes/hangs are still caught by the worker watchdog). hp01, plotting, fits and "
             "file IO are outside this check. ASan leak checking is off (known one-buffer leak per shape change).",
@@ -88,7 +88,7 @@ CHECKS = {
             "celerity() is taken from the library (C01). Cases within 1e-9 of a float boundary are don't-care unless equality is exact.",
             "3 C09"),
     "C18": ("model_checking", "hist", "exhaustive operation-history exploration (all sequences to depth 3/4) on live objects vs fresh-interpreter references",
-            "Every sequence up to depth 2 over a 22-operation alphabet (accessor calls incl. one that exercises every observed function, "
+            "Every sequence up to depth 2 over a 23-operation alphabet (accessor calls incl. one that exercises every observed function and failing stats() calls with band limits, spectral fits on an array holding unfittable spectra, "
             "in-place edits of efth/dir/freq by item assignment, through .coords and by writing into .values, watershed calls on other "
             "shapes incl. the transposed shape of the observed spectra and an empty selection, another object, reader calls incl. one whose result is edited) plus depth 3 over a reduced "
             "13-operation alphabet with at least one edit (thorough: full alphabet to depth 3, reduced to depth 4) is executed on freshly "
@@ -107,7 +107,7 @@ CHECKS = {
     "C14": ("exploration", "bex", "exhaustive enumeration of station subsets x query menus x tolerances x conventions vs a reference geometry",
             "Every subset of 1-4 stations of a lattice around both meridians (each station carrying a one-hot spectrum), written in both "
             "longitude conventions, x query point/pair menus in both conventions x tolerances x max_sites x options (unique/exact/"
-            "missing) x call modes, for nearest, idw and bbox; an independent reference geometry with the short-way longitude difference "
+            "missing) x call modes, for nearest, idw and bbox, plus clusters of stations 2e-4..8e-4 degree apart queried on and next to every member; an independent reference geometry with the short-way longitude difference "
             "decides membership, weights, failures and the reported convention.",
             "Planar degree metric as in the library; ties and exact box edges are don't-care; max_sites=1 with several stations in range "
             "accepts either reading.",
@@ -115,7 +115,7 @@ CHECKS = {
     "C17": ("exploration", "hist", "exhaustive enumeration of operations and ordered operation pairs x input variants with deep before/after snapshots",
             "The operation alphabet is built by introspection (129 operations: every public SpecArray/SpecDataset/Partition method with "
             "argument menus, selections, writers, construct helpers, free functions); every operation alone on numpy-backed, view-into-"
-            "caller-buffer, read-only, dask-backed, float32-with-NaN and integer-direction inputs (queries as lists and as arrays in both longitude conventions, native WW3 / SWAN datasets), and every ordered pair on the same objects; a deep bitwise snapshot of the "
+            "caller-buffer, read-only, dask-backed, float32-with-NaN and integer-direction inputs (queries as lists and as arrays in both longitude conventions, native WW3 / SWAN datasets, a station dataset whose wind/depth lack the site dimension and carry their own attributes), and every ordered pair on the same objects; a deep bitwise snapshot of the "
             "dataset, wind/depth arrays, coordinate arrays, owning buffers, query lists and keyword dicts must be unchanged.",
             "plot, to_orcaflex and to_zarr are skipped; from_<model> readers are covered by C12's native-unmodified clause.",
             "3 C17"),
@@ -209,11 +209,11 @@ def main():
         "engines": [
             {"name": "bex", "path": "mc/gen.py", "serves_properties": ["C01", "C02", "C03", "C05", "C06", "C08", "C09", "C10", "C14", "C15", "C16", "C20"],
              "kind_free_text": "bounded-exhaustive input explorer: complete enumeration of small grids x value alphabets x parameter menus through the real API, sharded over processes"},
-            {"name": "hist", "path": "mc/hist.py", "serves_properties": ["C17", "C18", "C19"], "kind_free_text": "operation-history explorer (all sequences to depth d, prefix replay on fresh objects, fresh-process reference)"},
+            {"name": "hist", "path": "mc/props/c18.py", "serves_properties": ["C17", "C18", "C19"], "kind_free_text": "operation-history explorer (all sequences to depth d, prefix replay on fresh objects, fresh-process reference)"},
             {"name": "tasksched", "path": "mc/tasksched.py", "serves_properties": ["C07"], "kind_free_text": "controlled dask scheduler enumerating task orders of the real graphs"},
             {"name": "threadsched", "path": "mc/threadsched.py", "serves_properties": ["C07"], "kind_free_text": "sys.settrace baton scheduler enumerating 2-thread interleavings up to a preemption bound"},
             {"name": "cdrv", "path": "mc/cdrv/driver.c", "serves_properties": ["C04", "C20"], "kind_free_text": "C driver enumerating grids/spectra/levels against specpart.c under ASan+UBSan with a flood-fill oracle"},
-            {"name": "fmt", "path": "mc/fmt.py", "serves_properties": ["C11", "C12", "C13"], "kind_free_text": "independent reference encoders/decoders of the file formats fed with enumerated contents"},
+            {"name": "fmt", "path": "mc/c13_encoders.py", "serves_properties": ["C11", "C12", "C13"], "kind_free_text": "independent reference encoders/decoders of the file formats fed with enumerated contents"},
         ],
         "checks": checks,
         "not_applicable": na,
